@@ -1,0 +1,211 @@
+//go:build verif
+
+package staking
+
+// C04, approval side of the staking precompile (approve.go): approve / revoke / increaseAllowance / decreaseAllowance.
+// Comment-only; compiled only with -tags verif. Lib specs: /verif/specs/c04/*.spec (66_approval.spec for this file).
+// The grant store is the abstract view of 62_authz.spec: g_kind / g_exp / g_limited / g_limit, keyed by
+// gkey(grantee bytes, granter bytes, message type URL).
+
+/*@
+// x/staking/types/authz.go normalizeAuthzType + the package variables of approve.go (DelegateMsg = sdk.MsgTypeURL(&MsgDelegate{}) ...):
+// the URL a StakeAuthorization of type 1..4 is stored under is the corresponding package-level message URL
+axiom stake_url: stake_url(1) == glob_staking_DelegateMsg && stake_url(2) == glob_staking_UndelegateMsg && stake_url(3) == glob_staking_RedelegateMsg
+        && stake_url(4) == glob_staking_CancelUnbondingDelegationMsg
+specfunc IsStakingURL(u string) bool = u == glob_staking_DelegateMsg || u == glob_staking_UndelegateMsg || u == glob_staking_RedelegateMsg || u == glob_staking_CancelUnbondingDelegationMsg
+specfunc MaxU256s() int = 115792089237316195423570985008687907853269984665640564039457584007913129639935
+
+func convertMsgToAuthz
+    ensures err_iff: (result.1 == nil) == IsStakingURL(msg)
+    ensures typ: result.1 == nil ==> 1 <= result.0 && result.0 <= 4 && stake_url(result.0) == msg
+
+// event emission: writes an EVM log only - no effect on the Cosmos state, the grants or the balance mirror (frame proved)
+func (Precompile).EmitApprovalEvent
+    // abi.json: event Approval has 4 inputs (grantee, granter indexed; methods, value)
+    requires wf: ctx_height(ctx) >= 0 && len(p.ABI.Events["Approval"].Inputs) == 4 && stateDB != nil
+    ensures true
+func (Precompile).EmitAllowanceChangeEvent
+    // abi.json: event AllowanceChange has 4 inputs (grantee, granter indexed; methods, values)
+    requires wf: ctx_height(ctx) >= 0 && len(p.ABI.Events["AllowanceChange"].Inputs) == 4 && stateDB != nil
+    // the event reports the new limit of every listed grant: each must exist as a live StakeAuthorization
+    requires granted: forall j int :: 0 <= j && j < len(typeUrls) ==> GLive(g_kind, g_exp, gkey(addr_bytes(grantee), addr_bytes(granter), typeUrls[j]), ctx)
+            && g_kind[gkey(addr_bytes(grantee), addr_bytes(granter), typeUrls[j])] == StakeTag()
+    loop 1 invariant idx: 0 <= #i && #i <= len(typeUrls) && len(newValues) == len(typeUrls)
+    ensures true
+
+// C04: the grant written is (granter -> grantee) for the URL of authzType, a StakeAuthorization of that type whose limit is the
+// given coin (nil = no limit), expiring ApprovalExpiration after the block time. Nothing else in the grant store changes.
+func (Precompile).createStakingAuthz
+    requires known_type: 1 <= authzType && authzType <= 4 && p.stakingKeeper.Keeper != nil
+    let key = gkey(addr_bytes(grantee), addr_bytes(granter), stake_url(authzType))
+    modifies g_kind, g_exp, g_limited, g_limit
+    call SaveGrant requires who: gte == addr_bytes(grantee) && gtr == addr_bytes(granter)
+    call SaveGrant requires what: isdyn(authorization, *StakeAuthz) && dyn(authorization, *StakeAuthz) != nil && dyn(authorization, *StakeAuthz).AuthorizationType == authzType
+            && dyn(authorization, *StakeAuthz).MaxTokens == coin
+    call SaveGrant requires expiry: exp != nil && time_unix(*exp) == time_unix(time_add(ctx_blocktime(ctx), p.ApprovalExpiration))
+    call SaveGrant requires untouched: g_kind == old(g_kind) && g_exp == old(g_exp) && g_limited == old(g_limited) && g_limit == old(g_limit)
+    ensures granted: result == nil ==> g_kind == upd(old(g_kind), key, StakeTag()) && g_limited == upd(old(g_limited), key, coin != nil)
+            && g_limit == ite(coin != nil, upd(old(g_limit), key, coin.Amount), old(g_limit))
+    ensures expiry: result == nil ==> g_exp[key] != nil && (forall k GKey :: k != key ==> g_exp[k] == old(g_exp)[k])
+    ensures negative: coin != nil && coin.Amount < 0 ==> result != nil
+
+// C04: approve(amount) for one message type: no coin = grant without limit; amount > 0 = grant limited to exactly the amount;
+// amount == 0 = the grant is deleted (error when there is none). Always for exactly (grantee, granter, URL of authzType).
+func (Precompile).grantOrDeleteStakingAuthz
+    requires known_type: 1 <= authzType && authzType <= 4 && p.stakingKeeper.Keeper != nil
+    let key = gkey(addr_bytes(grantee), addr_bytes(granter), stake_url(authzType))
+    modifies g_kind, g_exp, g_limited, g_limit
+    call DeleteGrant requires who: gte == addr_bytes(grantee) && gtr == addr_bytes(granter) && url == stake_url(authzType)
+    call DeleteGrant requires when: coin != nil && coin.Amount <= 0 && g_kind == old(g_kind) && g_exp == old(g_exp) && g_limited == old(g_limited) && g_limit == old(g_limit)
+    call createStakingAuthz requires same: grantee == old(grantee) && granter == old(granter) && coin == old(coin) && authzType == old(authzType) && (coin == nil || coin.Amount > 0)
+            && g_kind == old(g_kind) && g_exp == old(g_exp) && g_limited == old(g_limited) && g_limit == old(g_limit)
+    ensures unlimited: result == nil && coin == nil ==> g_kind == upd(old(g_kind), key, StakeTag()) && g_limited == upd(old(g_limited), key, false) && g_limit == old(g_limit)
+    ensures limited: result == nil && coin != nil && coin.Amount > 0 ==> g_kind == upd(old(g_kind), key, StakeTag()) && g_limited == upd(old(g_limited), key, true)
+            && g_limit == upd(old(g_limit), key, coin.Amount)
+    ensures granted_exp: result == nil && (coin == nil || coin.Amount > 0) ==> g_exp[key] != nil && (forall k GKey :: k != key ==> g_exp[k] == old(g_exp)[k])
+    ensures revoked: result == nil && coin != nil && coin.Amount <= 0 ==> old(g_kind)[key] != 0 && g_kind == upd(old(g_kind), key, 0) && g_limited == old(g_limited)
+            && g_limit == old(g_limit) && g_exp == old(g_exp)
+
+// the inner decreaseAllowance (contract in zz_contracts_c04_verif.go) refuses only an amount strictly above the limit: a decrease by
+// exactly the remaining allowance must get through to SaveGrant
+extend func (Precompile).decreaseAllowance
+    call Errorf requires only_too_big: stakeAuthz.MaxTokens != nil && coin.Amount > stakeAuthz.MaxTokens.Amount
+
+// ------------------------------------------------------------------ the four entry points
+// Preconditions are facts of the only call site (Precompile.Run): method is non-nil, args come from abi.Arguments.Unpack (no nil
+// *big.Int), the StateDB is non-nil, the ABI is the embedded abi.json, block heights are >= 0. origin (transaction signer) and
+// the grantee named in args[0] are free symbolic addresses.
+
+// C04 approve(grantee, amount, methods): every grant written or deleted is one of the SIGNER (granter == origin) to the decoded
+// grantee for a listed staking message type; each listed type ends up granted with exactly the decoded amount as limit
+// (no limit for MaxUint256, deleted for 0); no other grant changes.
+func (Precompile).Approve
+    requires wf: method != nil && ctx_height(ctx) >= 0 && p.stakingKeeper.Keeper != nil && len(p.ABI.Events["Approval"].Inputs) == 4 && stateDB != nil
+    requires abi_nonnil: len(args) == 3 && isdyn(args[1], *BigInt) ==> dyn(args[1], *BigInt) != nil
+    let gte = addr_bytes(dyn(args[0], Address))
+    let gtr = addr_bytes(origin)
+    let urls = unbox(args[2], "[]string")
+    let amt = old(*dyn(args[1], *BigInt))
+    let nolimit = !isdyn(args[1], *BigInt) || amt == MaxU256s()
+    let okargs = len(args) == 3 && isdyn(args[0], Address) && dyn(args[0], Address) != zero_EvmAddr && !(isdyn(args[1], *BigInt) && amt < 0) && UrlsOk(args[2])
+    modifies g_kind, g_exp, g_limited, g_limit
+    // convertMsgToAuthz cannot fail inside the case that has just matched one of the four staking URLs: dead code (proved)
+    unreachable return: return nil, errorsmod.Wrap(err, fmt.Sprintf(cmn.ErrInvalidMsgType, "staking", typeURL))
+    call grantOrDeleteStakingAuthz requires who: grantee == ret(CheckApprovalArgs, 1, 0) && granter == origin
+    call grantOrDeleteStakingAuthz requires what: coin == ret(CheckApprovalArgs, 1, 1) && stake_url(authzType) == typeURL
+    call Pack requires packs_true: len(args) == 1 && isdyn(args[0], bool) && dyn(args[0], bool)
+    loop 1 invariant idx: 0 <= #i && #i <= len(typeURLs)
+    loop 1 invariant urls: forall j int :: 0 <= j && j < #i ==> IsStakingURL(typeURLs[j])
+    loop 1 invariant frame: forall k GKey :: (forall j int :: 0 <= j && j < #i ==> k != gkey(addr_bytes(grantee), gtr, typeURLs[j]))
+            ==> g_kind[k] == old(g_kind)[k] && g_exp[k] == old(g_exp)[k] && g_limited[k] == old(g_limited)[k] && g_limit[k] == old(g_limit)[k]
+    loop 1 invariant nolimit: coin == nil ==> (forall j int :: 0 <= j && j < #i ==> g_kind[gkey(addr_bytes(grantee), gtr, typeURLs[j])] == StakeTag() && !g_limited[gkey(addr_bytes(grantee), gtr, typeURLs[j])])
+    loop 1 invariant limited: coin != nil && coin.Amount > 0 ==> (forall j int :: 0 <= j && j < #i ==> g_kind[gkey(addr_bytes(grantee), gtr, typeURLs[j])] == StakeTag()
+            && g_limited[gkey(addr_bytes(grantee), gtr, typeURLs[j])] && g_limit[gkey(addr_bytes(grantee), gtr, typeURLs[j])] == coin.Amount)
+    loop 1 invariant revoked: coin != nil && coin.Amount <= 0 ==> (forall j int :: 0 <= j && j < #i ==> g_kind[gkey(addr_bytes(grantee), gtr, typeURLs[j])] == 0)
+    loop 1 invariant live: coin == nil || coin.Amount > 0 ==> (forall j int :: 0 <= j && j < #i ==> g_exp[gkey(addr_bytes(grantee), gtr, typeURLs[j])] != nil)
+    ensures decoded: result.1 == nil ==> okargs && (forall j int :: 0 <= j && j < len(urls) ==> IsStakingURL(urls[j]))
+    ensures refused: !okargs ==> result.1 != nil && g_kind == old(g_kind) && g_exp == old(g_exp) && g_limited == old(g_limited) && g_limit == old(g_limit)
+    // nothing but the signer's grants to the grantee for the listed types is touched
+    ensures only_own: result.1 == nil ==> (forall k GKey :: (forall j int :: 0 <= j && j < len(urls) ==> k != gkey(gte, gtr, urls[j]))
+            ==> g_kind[k] == old(g_kind)[k] && g_exp[k] == old(g_exp)[k] && g_limited[k] == old(g_limited)[k] && g_limit[k] == old(g_limit)[k])
+    ensures limited: result.1 == nil && !nolimit && amt > 0 ==> (forall j int :: 0 <= j && j < len(urls) ==> g_kind[gkey(gte, gtr, urls[j])] == StakeTag()
+            && g_limited[gkey(gte, gtr, urls[j])] && g_limit[gkey(gte, gtr, urls[j])] == amt && g_exp[gkey(gte, gtr, urls[j])] != nil)
+    ensures nolimit: result.1 == nil && nolimit ==> (forall j int :: 0 <= j && j < len(urls) ==> g_kind[gkey(gte, gtr, urls[j])] == StakeTag() && !g_limited[gkey(gte, gtr, urls[j])]
+            && g_exp[gkey(gte, gtr, urls[j])] != nil)
+    ensures revoked: result.1 == nil && !nolimit && amt == 0 ==> (forall j int :: 0 <= j && j < len(urls) ==> g_kind[gkey(gte, gtr, urls[j])] == 0)
+
+// C04 revoke(grantee, methods): only the signer's own grants to the decoded grantee for the listed staking types are deleted
+func (Precompile).Revoke
+    requires wf: method != nil && ctx_height(ctx) >= 0 && len(p.ABI.Events["Revocation"].Inputs) == 3 && stateDB != nil
+    let gte = addr_bytes(dyn(args[0], Address))
+    let gtr = addr_bytes(origin)
+    let urls = unbox(args[1], "[]string")
+    let okargs = len(args) == 2 && isdyn(args[0], Address) && dyn(args[0], Address) != zero_EvmAddr && UrlsOk(args[1])
+    modifies g_kind
+    call DeleteGrant requires who: gte == addr_bytes(ret(CheckRevokeArgs, 1, 0)) && gtr == addr_bytes(origin) && url == typeURL && IsStakingURL(typeURL)
+    call Pack requires packs_true: len(args) == 1 && isdyn(args[0], bool) && dyn(args[0], bool)
+    loop 1 invariant idx: 0 <= #i && #i <= len(typeURLs)
+    loop 1 invariant urls: forall j int :: 0 <= j && j < #i ==> IsStakingURL(typeURLs[j])
+    loop 1 invariant frame: forall k GKey :: (forall j int :: 0 <= j && j < #i ==> k != gkey(addr_bytes(grantee), gtr, typeURLs[j])) ==> g_kind[k] == old(g_kind)[k]
+    loop 1 invariant revoked: forall j int :: 0 <= j && j < #i ==> g_kind[gkey(addr_bytes(grantee), gtr, typeURLs[j])] == 0 && old(g_kind)[gkey(addr_bytes(grantee), gtr, typeURLs[j])] != 0
+    ensures decoded: result.1 == nil ==> okargs && (forall j int :: 0 <= j && j < len(urls) ==> IsStakingURL(urls[j]))
+    ensures refused: !okargs ==> result.1 != nil && g_kind == old(g_kind)
+    ensures only_own: result.1 == nil ==> (forall k GKey :: (forall j int :: 0 <= j && j < len(urls) ==> k != gkey(gte, gtr, urls[j])) ==> g_kind[k] == old(g_kind)[k])
+    ensures revoked: result.1 == nil ==> (forall j int :: 0 <= j && j < len(urls) ==> g_kind[gkey(gte, gtr, urls[j])] == 0 && old(g_kind)[gkey(gte, gtr, urls[j])] != 0)
+
+// C04 increaseAllowance(grantee, amount, methods): every listed type must have a live StakeAuthorization grant signer -> grantee;
+// a limited one gets exactly old limit + amount (for a type listed once), an unlimited one is left alone; kinds and
+// expirations are unchanged; no other grant is touched.
+func (Precompile).IncreaseAllowance
+    requires wf: method != nil && ctx_height(ctx) >= 0 && p.stakingKeeper.Keeper != nil && len(p.ABI.Events["AllowanceChange"].Inputs) == 4 && stateDB != nil
+    requires abi_nonnil: len(args) == 3 && isdyn(args[1], *BigInt) ==> dyn(args[1], *BigInt) != nil
+    let gte = addr_bytes(dyn(args[0], Address))
+    let gtr = addr_bytes(origin)
+    let urls = unbox(args[2], "[]string")
+    let amt = old(*dyn(args[1], *BigInt))
+    let okargs = len(args) == 3 && isdyn(args[0], Address) && dyn(args[0], Address) != zero_EvmAddr && !(isdyn(args[1], *BigInt) && amt < 0) && UrlsOk(args[2])
+    ghostvar jj int
+    modifies g_kind, g_exp, g_limited, g_limit
+    call increaseAllowance requires who: grantee == ret(CheckApprovalArgs, 1, 0) && granter == origin && coin == ret(CheckApprovalArgs, 1, 1) && msgURL == typeURL
+    call Pack requires packs_true: len(args) == 1 && isdyn(args[0], bool) && dyn(args[0], bool)
+    loop 1 invariant idx: 0 <= #i && #i <= len(typeUrls)
+    loop 1 invariant amount: coin != nil ==> coin.Amount == amt && amt >= 0
+    loop 1 invariant same: g_kind == old(g_kind) && g_exp == old(g_exp)
+    loop 1 invariant granted: forall j int :: 0 <= j && j < #i ==> GLive(g_kind, g_exp, gkey(addr_bytes(grantee), gtr, typeUrls[j]), ctx) && g_kind[gkey(addr_bytes(grantee), gtr, typeUrls[j])] == StakeTag()
+    loop 1 invariant frame: forall k GKey :: (forall j int :: 0 <= j && j < #i ==> k != gkey(addr_bytes(grantee), gtr, typeUrls[j]))
+            ==> g_limited[k] == old(g_limited)[k] && g_limit[k] == old(g_limit)[k]
+    loop 1 invariant flags: forall j int :: 0 <= j && j < #i ==> g_limited[gkey(addr_bytes(grantee), gtr, typeUrls[j])] == old(g_limited)[gkey(addr_bytes(grantee), gtr, typeUrls[j])]
+    loop 1 invariant raised: 0 <= jj && jj < #i && (forall j2 int :: 0 <= j2 && j2 < #i && j2 != jj ==> typeUrls[j2] != typeUrls[jj]) && old(g_limited)[gkey(addr_bytes(grantee), gtr, typeUrls[jj])]
+            ==> g_limit[gkey(addr_bytes(grantee), gtr, typeUrls[jj])] == old(g_limit)[gkey(addr_bytes(grantee), gtr, typeUrls[jj])] + amt
+    ensures decoded: result.1 == nil ==> okargs
+    ensures refused: !okargs ==> result.1 != nil && g_kind == old(g_kind) && g_exp == old(g_exp) && g_limited == old(g_limited) && g_limit == old(g_limit)
+    ensures same: result.1 == nil ==> g_kind == old(g_kind) && g_exp == old(g_exp)
+    ensures needs_grant: result.1 == nil ==> (forall j int :: 0 <= j && j < len(urls) ==> old(GLive(g_kind, g_exp, gkey(gte, gtr, urls[j]), ctx)) && old(g_kind)[gkey(gte, gtr, urls[j])] == StakeTag())
+    ensures only_own: result.1 == nil ==> (forall k GKey :: (forall j int :: 0 <= j && j < len(urls) ==> k != gkey(gte, gtr, urls[j])) ==> g_limited[k] == old(g_limited)[k] && g_limit[k] == old(g_limit)[k])
+    ensures flags: result.1 == nil ==> (forall j int :: 0 <= j && j < len(urls) ==> g_limited[gkey(gte, gtr, urls[j])] == old(g_limited)[gkey(gte, gtr, urls[j])])
+    // for an arbitrary position jj of the list whose type is listed once
+    ensures raised: result.1 == nil && 0 <= jj && jj < len(urls) && (forall j2 int :: 0 <= j2 && j2 < len(urls) && j2 != jj ==> urls[j2] != urls[jj]) && old(g_limited)[gkey(gte, gtr, urls[jj])]
+            ==> g_limit[gkey(gte, gtr, urls[jj])] == old(g_limit)[gkey(gte, gtr, urls[jj])] + amt
+
+// C04 decreaseAllowance(grantee, amount, methods): as increaseAllowance with old limit - amount; amount > limit is an error; a
+// decrease by exactly the limit leaves a LIMITED grant with limit 0 (nothing spendable: every staking message has amount > 0).
+func (Precompile).DecreaseAllowance
+    requires wf: method != nil && ctx_height(ctx) >= 0 && p.stakingKeeper.Keeper != nil && len(p.ABI.Events["AllowanceChange"].Inputs) == 4 && stateDB != nil
+    requires abi_nonnil: len(args) == 3 && isdyn(args[1], *BigInt) ==> dyn(args[1], *BigInt) != nil
+    let gte = addr_bytes(dyn(args[0], Address))
+    let gtr = addr_bytes(origin)
+    let urls = unbox(args[2], "[]string")
+    let amt = old(*dyn(args[1], *BigInt))
+    let okargs = len(args) == 3 && isdyn(args[0], Address) && dyn(args[0], Address) != zero_EvmAddr && !(isdyn(args[1], *BigInt) && amt < 0) && UrlsOk(args[2])
+    ghostvar jj int
+    modifies g_kind, g_exp, g_limited, g_limit
+    call decreaseAllowance requires who: grantee == ret(CheckApprovalArgs, 1, 0) && granter == origin && coin == ret(CheckApprovalArgs, 1, 1) && stake_url(stakeAuthz.AuthorizationType) == typeURL
+    call Pack requires packs_true: len(args) == 1 && isdyn(args[0], bool) && dyn(args[0], bool)
+    loop 1 invariant idx: 0 <= #i && #i <= len(typeUrls)
+    loop 1 invariant amount: coin != nil ==> coin.Amount == amt && amt >= 0
+    loop 1 invariant same: g_kind == old(g_kind) && g_exp == old(g_exp)
+    loop 1 invariant granted: forall j int :: 0 <= j && j < #i ==> GLive(g_kind, g_exp, gkey(addr_bytes(grantee), gtr, typeUrls[j]), ctx) && g_kind[gkey(addr_bytes(grantee), gtr, typeUrls[j])] == StakeTag()
+    loop 1 invariant frame: forall k GKey :: (forall j int :: 0 <= j && j < #i ==> k != gkey(addr_bytes(grantee), gtr, typeUrls[j]))
+            ==> g_limited[k] == old(g_limited)[k] && g_limit[k] == old(g_limit)[k]
+    loop 1 invariant flags: forall j int :: 0 <= j && j < #i ==> g_limited[gkey(addr_bytes(grantee), gtr, typeUrls[j])] == old(g_limited)[gkey(addr_bytes(grantee), gtr, typeUrls[j])]
+    loop 1 invariant lowered: 0 <= jj && jj < #i && (forall j2 int :: 0 <= j2 && j2 < #i && j2 != jj ==> typeUrls[j2] != typeUrls[jj]) && old(g_limited)[gkey(addr_bytes(grantee), gtr, typeUrls[jj])]
+            ==> g_limit[gkey(addr_bytes(grantee), gtr, typeUrls[jj])] == old(g_limit)[gkey(addr_bytes(grantee), gtr, typeUrls[jj])] - amt
+                && amt <= old(g_limit)[gkey(addr_bytes(grantee), gtr, typeUrls[jj])]
+    loop 1 invariant nonneg: forall j int :: 0 <= j && j < #i && old(g_limited)[gkey(addr_bytes(grantee), gtr, typeUrls[j])] && old(g_limit)[gkey(addr_bytes(grantee), gtr, typeUrls[j])] >= 0
+            ==> g_limit[gkey(addr_bytes(grantee), gtr, typeUrls[j])] >= 0
+    ensures decoded: result.1 == nil ==> okargs
+    ensures refused: !okargs ==> result.1 != nil && g_kind == old(g_kind) && g_exp == old(g_exp) && g_limited == old(g_limited) && g_limit == old(g_limit)
+    ensures same: result.1 == nil ==> g_kind == old(g_kind) && g_exp == old(g_exp)
+    ensures needs_grant: result.1 == nil ==> (forall j int :: 0 <= j && j < len(urls) ==> old(GLive(g_kind, g_exp, gkey(gte, gtr, urls[j]), ctx)) && old(g_kind)[gkey(gte, gtr, urls[j])] == StakeTag())
+    ensures only_own: result.1 == nil ==> (forall k GKey :: (forall j int :: 0 <= j && j < len(urls) ==> k != gkey(gte, gtr, urls[j])) ==> g_limited[k] == old(g_limited)[k] && g_limit[k] == old(g_limit)[k])
+    ensures flags: result.1 == nil ==> (forall j int :: 0 <= j && j < len(urls) ==> g_limited[gkey(gte, gtr, urls[j])] == old(g_limited)[gkey(gte, gtr, urls[j])])
+    // for an arbitrary position jj of the list whose type is listed once
+    ensures lowered: result.1 == nil && 0 <= jj && jj < len(urls) && (forall j2 int :: 0 <= j2 && j2 < len(urls) && j2 != jj ==> urls[j2] != urls[jj]) && old(g_limited)[gkey(gte, gtr, urls[jj])]
+            ==> g_limit[gkey(gte, gtr, urls[jj])] == old(g_limit)[gkey(gte, gtr, urls[jj])] - amt && amt <= old(g_limit)[gkey(gte, gtr, urls[jj])]
+    // a decrease by exactly the remaining allowance: the grant stays, limited, with nothing left
+    ensures exact: result.1 == nil && 0 <= jj && jj < len(urls) && (forall j2 int :: 0 <= j2 && j2 < len(urls) && j2 != jj ==> urls[j2] != urls[jj]) && old(g_limited)[gkey(gte, gtr, urls[jj])]
+            && amt == old(g_limit)[gkey(gte, gtr, urls[jj])] ==> g_kind[gkey(gte, gtr, urls[jj])] == StakeTag() && g_limited[gkey(gte, gtr, urls[jj])] && g_limit[gkey(gte, gtr, urls[jj])] == 0
+    // more than the remaining allowance: refused
+    ensures too_big: 0 <= jj && jj < len(urls) && (forall j2 int :: 0 <= j2 && j2 < len(urls) && j2 != jj ==> urls[j2] != urls[jj]) && old(g_limited)[gkey(gte, gtr, urls[jj])]
+            && amt > old(g_limit)[gkey(gte, gtr, urls[jj])] ==> result.1 != nil
+@*/
